@@ -34,7 +34,8 @@ func (q Query) Execute(j *journal.Builder, r *Report) *journal.Processor {
 			for _, com := range dict.SortedKeys(d.Performance.V1, commodity.Compare) {
 				total += d.Performance.V1[com]
 			}
-			for com, v := range d.Performance.V1 {
+			for _, com := range dict.SortedKeys(d.Performance.V1, commodity.Compare) {
+				v := d.Performance.V1[com]
 				ss := q.Universe.Locate(com)
 				level, suffix, ok := q.Mapping.Level(strings.Join(ss, ":"))
 				if ok && level < len(ss)-suffix {
@@ -86,8 +87,9 @@ func (r *Report) PropagateWeights() {
 		if n.Value.Weights == nil {
 			n.Value.Weights = make(map[time.Time]float64)
 		}
-		for _, ch := range n.Children {
-			for date, w := range ch.Value.Weights {
+		// floating point addition is not associative: add the children in a fixed order
+		for _, segment := range dict.SortedKeys(n.Children, compare.Ordered[string]) {
+			for date, w := range n.Children[segment].Value.Weights {
 				n.Value.Weights[date] += w
 			}
 		}
@@ -97,8 +99,8 @@ func (r *Report) PropagateWeights() {
 func (r *Report) SortWeighted() {
 	r.weights.PostOrder(func(n *Node) {
 		var total float64
-		for _, w := range n.Value.Weights {
-			total += w
+		for _, date := range dict.SortedKeys(n.Value.Weights, compare.Time) {
+			total += n.Value.Weights[date]
 		}
 		n.Value.Weight = -total
 	})
